@@ -41,7 +41,7 @@ except ImportError:
     html = None
 
 from spyne.protocol._base import ProtocolMixin
-from spyne.model import ModelBase, XmlAttribute, SimpleModel, Null, \
+from spyne.model import ModelBase, XmlAttribute, XmlData, SimpleModel, Null, \
     ByteArray, File, ComplexModelBase, AnyXml, AnyHtml, Unicode, Decimal, \
     Double, Integer, Time, DateTime, Uuid, Duration, Boolean, AnyDict, \
     AnyUri, PushBase, Date
@@ -114,6 +114,7 @@ class OutProtocolBase(ProtocolMixin):
             Duration: self.duration_to_bytes,
             ByteArray: self.byte_array_to_bytes,
             XmlAttribute: self.xmlattribute_to_bytes,
+            XmlData: self.xmlattribute_to_bytes,
             ComplexModelBase: self.complex_model_base_to_bytes,
         })
 
@@ -138,6 +139,7 @@ class OutProtocolBase(ProtocolMixin):
             Duration: self.duration_to_unicode,
             ByteArray: self.byte_array_to_unicode,
             XmlAttribute: self.xmlattribute_to_unicode,
+            XmlData: self.xmlattribute_to_unicode,
             ComplexModelBase: self.complex_model_base_to_unicode,
         })
 
